@@ -49,7 +49,27 @@ HOSTS = ["localhost", "127.0.0.1", "127.0.0.2"]
 CERTS = ["rsa", "ec", "ed", "hostile", "expired", "notyet"]
 CERT_FP = [0, 1, 2, 3, 6, 7]                      # fingerprint id of each certificate
 READABLE = [0, 1, 2, 4, 5]                        # certificates cryptography.x509 can load
-N_FP = 8                                          # fingerprint ids: 0..3, 6, 7 = the certificates, 4/5 = near misses of 0/1
+# fingerprint ids: 0..3, 6, 7 = the certificates, 4/5 = near misses of 0/1, 8.. = OTHER SPELLINGS of the same digests
+# (import_toml accepts and stores them verbatim): id 8 + 3*i + j = certificate READABLE[i] spelled
+# j=0 "sha256:<HEX>", j=1 "SHA256:<hex>", j=2 "SHA256:<HEX>"
+N_BASE = 8
+N_FP = N_BASE + 3 * len(READABLE)
+
+
+def spell(fp: str, j: int) -> str:
+    alg, dig = fp.split(":", 1)
+    return [alg + ":" + dig.upper(), alg.upper() + ":" + dig, alg.upper() + ":" + dig.upper()][j]
+
+
+def sem(fpid):
+    """the digest a stored pin denotes, as the id of its canonical spelling"""
+    if isinstance(fpid, int) and fpid >= N_BASE:
+        return CERT_FP[READABLE[(fpid - N_BASE) // 3]]
+    return fpid
+
+
+def variant_id(cert: int, j: int) -> int:
+    return N_BASE + 3 * READABLE.index(cert) + j
 
 
 def fp_table(w) -> list[str]:
@@ -58,7 +78,8 @@ def fp_table(w) -> list[str]:
     f0, f1 = f[0], f[1]
     near0 = f0[:-1] + ("0" if f0[-1] != "0" else "1")                      # differs in the last hex digit only
     near1 = f1[:7 + 32] + "".join("0" if ch != "0" else "1" for ch in f1[7 + 32:])   # same first half
-    return f + [near0, near1] + [c[n].fingerprint for n in CERTS[4:]]
+    base = f + [near0, near1] + [c[n].fingerprint for n in CERTS[4:]]
+    return base + [spell(base[CERT_FP[ci]], j) for ci in READABLE for j in range(3)]
 
 
 # ----------------------------------------------------------------------------
@@ -373,7 +394,7 @@ class Histories(Family):
         ents = []
         for _ in range(rng.choice([0, 1, 1, 2, 3, 4])):
             h, p = rng.choice(keys) if rng.random() < 0.85 else (rng.randrange(3), rng.randrange(2))
-            ents.append([h, p, rng.randrange(N_FP)])
+            ents.append([h, p, rng.randrange(N_BASE) if rng.random() < 0.7 else rng.randrange(N_BASE, N_FP)])
         return ["import", rng.choice(["merge", "merge", "replace"]), rng.choice(["none", "skip", "update"]), ents]
 
     def gen(self, rng: random.Random, n: int):
@@ -387,6 +408,12 @@ class Histories(Family):
         b.append({"tofu": True, "fresh": True, "ops": [["import", "merge", "none", [[0, 0, 4]]], ["get", 0, 0, 0, ""], ["import", "merge", "update", [[0, 0, 0]]], ["get", 0, 0, 0, ""]]})
         b.append({"tofu": True, "fresh": False, "ops": [["import", "replace", "none", [[1, 0, 5]]], ["upload", 1, 0, 1, ""], ["chain", [[0, 0, 0, ""], [1, 0, 1, ""]]]]})
         b.append({"tofu": True, "fresh": False, "ops": [["get", 0, 0, 0, "none"], ["get", 0, 0, 0, "raise"], ["get", 0, 0, 0, ""], ["upload", 0, 0, 1, "none"], ["get", 0, 0, 1, "raise"]]})
+        # pins that entered the store through import_toml in another spelling, then the matching and another certificate
+        for ci in READABLE:
+            for j in range(3):
+                other = READABLE[(READABLE.index(ci) + 1) % len(READABLE)]
+                b.append({"tofu": True, "fresh": False, "ops": [["import", "merge", "none", [[0, 1, variant_id(ci, j)]]], ["get", 0, 1, other, ""],
+                                                               ["upload", 0, 1, ci, ""], ["get", 0, 1, 3, ""]]})
         # overlapping first connections to one unpinned host:port, every pair of readable certificates
         for c1 in READABLE:
             for c2 in READABLE:
@@ -527,7 +554,7 @@ class Histories(Family):
                     if "?" in acc:
                         continue
                     if pin is not None:
-                        if any(a != pin for a in acc):
+                        if any(a != sem(pin) for a in acc):
                             return ("accepted-with-different-cert", f"{where}: {key} is pinned to {pin}; overlapping connections presenting {acc} were accepted")
                         if after.get(key) != pin:
                             return ("pins-changed-on-failure", f"{where}: pin of {key} was {pin}, is {after.get(key)} after the overlapping calls {st['par']}")
@@ -566,6 +593,12 @@ class Histories(Family):
                     pin = exp.get(key)
                     if pin is None:
                         exp[key] = pres            # a first connection pins what was presented
+                    elif pin != pres and sem(pin) == pres:
+                        # the pin is another spelling of the presented certificate's digest (imported "SHA256:…"): the
+                        # property is satisfied by accepting it and by refusing it; a refusal must leave the store alone
+                        if last and res[0] != "ok":
+                            failing = True
+                            break
                     elif pin != pres:
                         if not last or res[0] == "ok":
                             return ("accepted-with-different-cert", f"{where}: hop {j} to {key} pinned to fingerprint {pin} presented {pres} and was accepted (result {res}, {len(conns)} connections)")
